@@ -332,7 +332,11 @@ pub fn check_program(blocks: &[Value], authz: &Value, res: &Value, tag: &str, pr
     let q: Result<Vec<(String,)>, _> = a.query("r($x) <- f($x)");
     match q {
         Ok(v) => {
+            let n = v.len();
             let g: BTreeSet<String> = v.into_iter().map(|t| t.0).collect();
+            if n != g.len() {
+                problems.push(format!("{tag}: query() returned {n} answers for {} distinct facts", g.len()));
+            }
             if g != expected_query(&res["q_default"]) {
                 problems.push(format!("{tag}: query() sees {:?}, spec {:?}", g, expected_query(&res["q_default"])));
             }
@@ -363,7 +367,11 @@ pub fn check_program(blocks: &[Value], authz: &Value, res: &Value, tag: &str, pr
     let q: Result<Vec<(String,)>, _> = a.query_all("r($x) <- f($x)");
     match q {
         Ok(v) => {
+            let n = v.len();
             let g: BTreeSet<String> = v.into_iter().map(|t| t.0).collect();
+            if n != g.len() {
+                problems.push(format!("{tag}: query_all() returned {n} answers for {} distinct facts", g.len()));
+            }
             if g != expected_query(&res["q_all"]) {
                 problems.push(format!("{tag}: query_all() sees {:?}, spec {:?}", g, expected_query(&res["q_all"])));
             }
@@ -373,7 +381,11 @@ pub fn check_program(blocks: &[Value], authz: &Value, res: &Value, tag: &str, pr
     let q: Result<Vec<(String,)>, _> = a.query_all("r($x) <- d($x)");
     match q {
         Ok(v) => {
+            let n = v.len();
             let g: BTreeSet<String> = v.into_iter().map(|t| t.0).collect();
+            if n != g.len() {
+                problems.push(format!("{tag}: query_all(d) returned {n} answers for {} distinct facts", g.len()));
+            }
             if g != expected_query(&res["q_d_all"]) {
                 problems.push(format!("{tag}: query_all(d) sees {:?}, spec {:?}", g, expected_query(&res["q_d_all"])));
             }
@@ -560,6 +572,19 @@ fn replay_outcomes(idx: usize, case: &Value, n: usize) -> Value {
                         let missing: Vec<_> = ew.difference(&w).take(2).collect();
                         problems.push(format!("OUTSIDE-SPEC: world differs from the spec's: extra {:?} missing {:?}", extra, missing));
                         detail.insert(format!("world missing {:?} extra {:?}", missing, extra));
+                    }
+                    // the answers of a query are the distinct facts of the spec's result, each once
+                    if res.get("q_d_all").is_some() {
+                        for (qsrc, key) in [("r($x) <- d($x)", "q_d_all"), ("r($x) <- f($x)", "q_all")] {
+                            if let Ok(v) = a.query_all::<_, (String,), _>(qsrc) {
+                                let n = v.len();
+                                let g: BTreeSet<String> = v.into_iter().map(|t| t.0).collect();
+                                if n != g.len() || g != expected_query(&res[key]) {
+                                    problems.push(format!("OUTSIDE-SPEC: query_all({qsrc}) returned {n} answers {:?}, the spec's result has {:?}", g, expected_query(&res[key])));
+                                    detail.insert(format!("query_all {qsrc}: {n} answers"));
+                                }
+                            }
+                        }
                     }
                     if got["policy"] != res["policy"] || got["ok"] != res["ok"] || listed_failed(&got["failed"]) != canon_failed(&res["failed"]) {
                         problems.push(format!("error-free result {} differs from the spec's {}", got, json!({"policy": res["policy"], "ok": res["ok"], "failed": res["failed"]})));
